@@ -20,7 +20,7 @@ from .model import hintsem as HS
 A = lambda n: ('a', n)
 
 ATOMS0 = ['int', 'bool', 'str', 'float', 'bytes', 'none', 'object', 'any', 'K', 'K2', 'N', 'T', 'TB', 'TC', 'P', 'E',
-          'G', 'GL', 'complex', 'NoneType', 'IE', 'NL', 'TL', 'TU']
+          'G', 'GL', 'complex', 'NoneType', 'IE', 'NL', 'TL', 'TU', 'DupA', 'DupB', 'TSi', 'TSs']
 LITS0 = [('lit', '1'), ('lit', "'a'"), ('lit', 'True'), ('lit', 'None'), ('lit', 'E.A'), ('lit', '1', "'a'", 'None'),
          ('lit', '1', 'True'), ('lit', "b'x'", '0'),
          # every order of equal-valued members of different types (bool/int/IntEnum), and plain reorderings
@@ -295,4 +295,6 @@ def shape(t) -> str:
         return t[1] + '[' + shape(t[2]) + ']'
     if tag == 'annm':
         return 'AnnM[' + shape(t[1]) + ']'
+    if tag == 'call':
+        return 'Callable[' + ('...' if t[2] == '...' else ','.join(shape(p) for p in t[2])) + '->' + shape(t[3]) + ']'
     return '?'
